@@ -122,3 +122,78 @@ CONSTANTS
 INVARIANT Report
 CHECK_DEADLOCK FALSE
 '''
+
+
+# ------------------------------------------------------------------ edit distance
+def eligible_ed(case):
+    return (case['kind'] == 'join' and case['meas'] == 'EDIT_DISTANCE' and case.get('n_jobs', 1) == 1
+            and case.get('sc', 1) == 1 and case['tok']['kind'] == 'qg')
+
+
+def build_ed(case, events, tables, tid):
+    """Hook events of one _edit_distance_join_split run -> record for spec/TraceWorkersED.tla."""
+    ltable, rtable = tables
+    starts = [e for e in events if e['ev'] == 'worker_start' and e.get('fn') == 'edit_distance_join']
+    ends = [e for e in events if e['ev'] == 'worker_end' and e.get('fn') == 'edit_distance_join']
+    built = [e for e in events if e['ev'] == 'index_built' and e.get('kind') == 'prefix']
+    if len(starts) != 1 or len(ends) != 1 or len(built) != 1:
+        return None
+    lkey, rkey = case.get('lkey', 'id'), case.get('rkey', 'id')
+    lattr, rattr = case.get('lattr', 's'), case.get('rattr', 's')
+    lvals = [(k, v) for k, v in zip(ltable[lkey].tolist(), ltable[lattr].tolist()) if not record.is_missing(v)]
+    rvals = [(k, v) for k, v in zip(rtable[rkey].tolist(), rtable[rattr].tolist()) if not record.is_missing(v)]
+    alphabet = sorted({ch for _, v in lvals + rvals for ch in v})
+    if any(ch in '#$' for ch in alphabet):
+        return None
+    code = {ch: i + 1 for i, ch in enumerate(alphabet)}
+    code['#'], code['$'] = -2, -1
+    q = 2 if case.get('default_tok') else int(case['tok'].get('q', 2))
+    pad = True if case.get('default_tok') else bool(case['tok'].get('pad', 1))
+    tau = case['t'][0] // case['t'][1]
+    rec = {'tid': tid, 'tau': tau, 'op': case['op'],
+           'L': [[code[ch] for ch in v] for _, v in lvals], 'R': [[code[ch] for ch in v] for _, v in rvals],
+           'ord': [[[code[ch] for ch in g], r] for g, r in starts[0]['ordering']],
+           'sizes': list(built[0]['sizes']), 'plens': [int(x) for x in built[0]['prefix_lengths']],
+           'index': [[k, list(rows)] for k, rows in built[0]['index']], 'llens': list(starts[0]['l_lens']),
+           'probes': [], 'rows': []}
+    if [record.key_code(k) for k in starts[0]['l_keys']] != [record.key_code(k) for k, _ in lvals]:
+        return None
+    by_key, cur_fc = {}, None
+    for e in events:
+        if e['ev'] == 'find_candidates' and e.get('kind') == 'prefix':
+            cur_fc = e
+        elif e['ev'] == 'probe' and e.get('fn') == 'edit_distance_join':
+            by_key[record.key_code(e['r_key'])] = (e, cur_fc)
+            cur_fc = None
+    for k, v in rvals:
+        got = by_key.get(record.key_code(k))
+        if got is None:
+            return None
+        e, fc = got
+        rec['probes'].append({'rtoks': list(e['r_tokens']), 'rlen': int(e['r_len']), 'cand': list(e['cand']),
+                              'nofc': 0 if fc is not None else 1,
+                              'rp': int(fc['prefix_length']) if fc is not None else 0})
+    lpos = {record.key_code(k): i for i, (k, _) in enumerate(lvals)}
+    rpos = {record.key_code(k): i for i, (k, _) in enumerate(rvals)}
+    for row in ends[0]['rows']:
+        try:
+            d = int(round(float(row[-1])))
+        except (TypeError, ValueError):
+            d = -1
+        rec['rows'].append([lpos.get(record.key_code(row[0]), -1), rpos.get(record.key_code(row[1]), -1), d])
+    return (q, pad), rec
+
+
+CFG_ED = '''SPECIFICATION TSpec
+CONSTANTS
+  NChar = 1
+  MaxLen = 0
+  MaxL = 0
+  MaxR = 0
+  QVal = %d
+  Padding = %s
+  MaxTau = 0
+  Sabotage = "none"
+INVARIANT Report
+CHECK_DEADLOCK FALSE
+'''
